@@ -6,7 +6,8 @@ from vlib.skyb import hx
 
 PID = "C14"
 LEAN_MODULE = "Sb.Properties.C14"
-THEOREMS = ["Sb.C14.trackRun_eq_verticalSuffix", "Sb.C14.verticalSuffix_all_vertical", "Sb.C14.verticalSuffix_is_suffix", "Sb.C14.verticalSuffix_maximal", "Sb.C14.propose_screening", "Sb.C14.landing_no_run", "Sb.C14.landing_short_run", "Sb.C14.walkRun_spec", "Sb.C14.walkRun_in_segment"]
+THEOREMS = ["Sb.C14.trackRun_eq_verticalSuffix", "Sb.C14.verticalSuffix_all_vertical", "Sb.C14.verticalSuffix_is_suffix", "Sb.C14.verticalSuffix_maximal", "Sb.C14.propose_screening", "Sb.C14.landing_no_run", "Sb.C14.landing_short_run", "Sb.C14.walkRun_spec", "Sb.C14.walkRun_in_segment",
+            "Sb.Corr.Cert.pos_sound", "Sb.Corr.Cert.root_sound", "Sb.Corr.Cert.segs_cover", "Sb.Corr.Cert.segs_roots", "Sb.Corr.Cert.partition_complete", "Sb.Corr.Cert.partition_sound", "Sb.Corr.Cert.reachesCert_true", "Sb.Corr.Cert.reachesCert_false", "Sb.Corr.Cert.hasRootCert_true", "Sb.Corr.Cert.hasRootCert_false", "Sb.Corr.Cert.rootsCert_complete", "Sb.Corr.Cert.rootsCert_sound", "Sb.Corr.Cert.sqrt2Segs_ok"]
 RULE = ("trajectory files: 0..4 segments of arbitrary flight (any encoding incl. degree 7 on x/y, ending with a non-vertical or ascending "
         "segment or not) followed by a run of 0..6 vertical descending segments whose altitude is constant (hover), linear or a monotone "
         "well-conditioned cubic, with horizontal jitter of 0, exactly the threshold, and one unit on both sides of it; scales {1,10,127}; "
